@@ -89,6 +89,8 @@ def core_check(cfg):
         build_s = vlib.build_harness()
         d = vlib.workdir(prop)
         known_seen, violations = {}, []
+        if replay and json.load(open(replay)).get("kind") == "session-scenario":
+            return session_check({"gen": None})(prop, tier, seed, replay)
         if replay:
             pl = json.load(open(replay))
             req = os.path.join(d, "req_replay.ndjson")
@@ -167,6 +169,45 @@ def core_check(cfg):
             nrnd += nx
             log(f"[{prop}] random histories with extended monitoring on: {len(xfiles)} x {t['random_len']} requests, {nx} records, {time.time()-t3b:.0f}s")
 
+        # 3c. the same property observed through sockets (forwarding tasks of the protocol layer, real schedules)
+        if cfg.get("live_gen"):
+            t3c = time.time()
+            lscs = cfg["live_gen"](random.Random(seed * 31 + 7), tier)
+
+            def run_live(ib):
+                i, part = ib
+                path = os.path.join(d, f"sc_live{i}.ndjson")
+                with open(path, "w") as f:
+                    f.write(json.dumps({"hdr": True, "meaning": {}}) + "\n")
+                    for s_ in part:
+                        f.write(json.dumps(s_) + "\n")
+                raw = os.path.join(d, f"raw_live{i}.ndjson")
+                vlib.run_harness(["sock-run", path, raw, os.path.join(d, "sock")], timeout=1800)
+                tr = os.path.join(d, f"tr_live{i}.ndjson")
+                n = sess.postprocess(raw, tr)
+                r = sess.validate(d, tr, known, 900)
+                r["n"], r["scs"] = n, part
+                return r
+            nlive = 0
+            for i, r in enumerate(vlib.parallel(run_live, [(i, lscs[i::8]) for i in range(8) if lscs[i::8]])):
+                nlive += r["n"]
+                if r["status"] == "known":
+                    for f_ in r["flags"]:
+                        known_seen[f_] = known_seen.get(f_, 0) + 1
+                elif r["status"] == "violation":
+                    bad = None
+                    for k, s_ in enumerate(r["scs"]):
+                        r1 = run_live((f"{i}_{k}", [s_]))
+                        if r1["status"] == "violation":
+                            bad = (s_, r1)
+                            break
+                    p = vlib.save_replay(prop, f"live_{len(violations)}", {"property": prop, "kind": "session-scenario", "scenario": bad[0] if bad else r["scs"],
+                                                                             "detail": (bad[1] if bad else r).get("detail"), "meaning": {}})
+                    violations.append({"replay": p, "what": "the event streams the sessions received are not what the specification delivers: %s"
+                                       % str((bad[1] if bad else r).get("detail", {}))[:400]})
+            nrnd += nlive
+            log(f"[{prop}] {len(lscs)} socket scenarios (subscriptions observed through sessions), {nlive} records, {time.time()-t3c:.0f}s")
+
         # 4. further configurations of the same property (other server settings): same three steps
         extras = []
         for ex in cfg.get("extras", []):
@@ -237,6 +278,9 @@ CHECKS["C01"] = core_check({
 EXTRAS = {"C08": [{"name": "extmon", "mc": "MC_C08x", "mc_cfg": "MC_C08x.cfg", "hdr": {"extmon": True}, "gen": gens.gen_c08x}]}
 
 
+LIVE = {"C03": lambda rnd, tier: sess.gen_c03_live(rnd, tier)}
+
+
 def reg(prop, mc, gen, quick, thorough):
     base_q = {"mc_cfg": f"{mc}.cfg", "edge_cfg": f"{mc}.cfg", "random_runs": 4, "random_len": 1200, "chunks": 8}
     base_t = {"mc_cfg": f"{mc}_thorough.cfg", "edge_cfg": f"{mc}.cfg", "random_runs": 32, "random_len": 5000, "chunks": 8, "extmon_runs": 8,
@@ -244,7 +288,7 @@ def reg(prop, mc, gen, quick, thorough):
     base_q.update(quick)
     base_t.update(thorough)
     CHECKS[prop] = core_check({"mc": mc, "gen": gen, "assumptions": CORE_ASSUME, "quick": base_q, "thorough": base_t,
-                               "meaning_from_mc": True, "extras": EXTRAS.get(prop, [])})
+                               "meaning_from_mc": True, "extras": EXTRAS.get(prop, []), "live_gen": LIVE.get(prop)})
 
 
 reg("C03", "MC_C03", gens.gen_c03, {}, {})
